@@ -26,7 +26,7 @@ Variable ki : A.
 Notation DEN := (@den A env D DX ki).
 Variable le : expr -> expr -> bool.
 Variable ffold : nat -> expr -> expr -> expr.
-Variables fx_is fx_ct : bool.      (* repair flags of the modelled tree: the theorems hold for all values *)
+Variables fx_is fx_ct fx_cs : bool.      (* repair flags of the modelled tree: the theorems hold for all values *)
 Notation INDEP := (indep A env D DX ki).
 
 (* value part of Product.__new__ without any well-formedness of the free-index lists *)
@@ -118,7 +118,7 @@ Fixpoint ix_ok (fuel : nat) (a : expr) (mi : list idx) : Prop :=
       | IndexSum x i d =>
           if fx_is && mi_has i mi then True      (* repaired tree: the shortcut is refused, raw node *)
           else mi_has i mi = false /\ ix_ok fuel' x mi /\
-               (forall x', mk_indexed le ffold fx_is fx_ct fuel' x mi = Some x' -> factor_ok fuel' x' i)
+               (forall x', mk_indexed le ffold fx_is fx_ct fx_cs fuel' x mi = Some x' -> factor_ok fuel' x' i)
       | ListTensor es =>
           match m0 with
           | Fixed k => match nth_error es k with Some sub => ix_ok fuel' sub mi' | None => True end
@@ -128,7 +128,7 @@ Fixpoint ix_ok (fuel : nat) (a : expr) (mi : list idx) : Prop :=
           if is_step1 B then False          (* the ListTensor[k] pre-step is not covered here *)
           else match B with
                | Indexed C kk =>
-                   if all_in jj kk
+                   if all_in jj kk && (negb fx_cs || disjointb jj (fidx C))
                    then (forall j, In j (ids jj) -> INDEP C j) /\ ix_ok fuel' C (map (subst_idx jj mi) kk)
                    else True
                | _ => True
@@ -148,7 +148,7 @@ Qed.
 
 Theorem C05_indexed_sound fuel : forall a mi e,
   fp_exact A env D DX ki ffold 0 kadd -> fp_exact A env D DX ki ffold 1 kmul ->
-  mk_indexed le ffold fx_is fx_ct fuel a mi = Some e -> ix_ok fuel a mi ->
+  mk_indexed le ffold fx_is fx_ct fx_cs fuel a mi = Some e -> ix_ok fuel a mi ->
   forall s rho, DEN s rho e [] = DEN s rho (Indexed a mi) [].
 Proof.
   induction fuel as [|fuel IH]; intros a mi e FP0 FP1 H OK s rho; [discriminate|].
@@ -156,8 +156,8 @@ Proof.
   destruct a; try (simpl in H; inversion H; subst; reflexivity).
   - (* Sum *)
     simpl in H. simpl in OK. destruct OK as [OK1 OK2].
-    destruct (mk_indexed le ffold fx_is fx_ct fuel a1 (m0 :: mi')) as [x'|] eqn:R1; [|discriminate].
-    destruct (mk_indexed le ffold fx_is fx_ct fuel a2 (m0 :: mi')) as [y'|] eqn:R2; [|discriminate].
+    destruct (mk_indexed le ffold fx_is fx_ct fx_cs fuel a1 (m0 :: mi')) as [x'|] eqn:R1; [|discriminate].
+    destruct (mk_indexed le ffold fx_is fx_ct fx_cs fuel a2 (m0 :: mi')) as [y'|] eqn:R2; [|discriminate].
     rewrite (mk_sum_value _ _ _ FP0 H). rewrite (IH _ _ _ FP0 FP1 R1 OK1), (IH _ _ _ FP0 FP1 R2 OK2).
     reflexivity.
   - (* IndexSum *)
@@ -165,7 +165,7 @@ Proof.
     destruct (fx_is && (match m0 with Fixed _ => false | Free j => Nat.eqb j i end || mi_has i mi')) eqn:G;
       [inversion H; reflexivity|].
     destruct OK as [NH [OK1 OKF]].
-    destruct (mk_indexed le ffold fx_is fx_ct fuel a (m0 :: mi')) as [x'|] eqn:R1; [|discriminate].
+    destruct (mk_indexed le ffold fx_is fx_ct fx_cs fuel a (m0 :: mi')) as [x'|] eqn:R1; [|discriminate].
     rewrite (C05_index_sum_sound fuel x' i d e FP1 H (OKF x' eq_refl)).
     cbn [den]. apply ksum_ext. intros k _.
     rewrite (IH _ _ _ FP0 FP1 R1 OK1). cbn [den].
@@ -176,10 +176,10 @@ Proof.
     match type of H with context [if negb ?c then _ else _] => destruct (negb c) end; [discriminate|].
     destruct a; try (inversion H; reflexivity).
     (* B = Indexed a mi *)
-    assert (Hfin : (if all_in ix mi then mk_indexed le ffold fx_is fx_ct fuel a (map (subst_idx ix (m0 :: mi')) mi)
+    assert (Hfin : (if all_in ix mi && (negb fx_cs || disjointb ix (fidx a)) then mk_indexed le ffold fx_is fx_ct fx_cs fuel a (map (subst_idx ix (m0 :: mi')) mi)
                     else Some (Indexed (ComponentTensor (Indexed a mi) ix) (m0 :: mi'))) = Some e).
     { destruct a; try exact H. destruct mi as [|kx [|? ?]]; try exact H. discriminate. }
-    clear H. destruct (all_in ix mi) eqn:AI; [|inversion Hfin; reflexivity].
+    clear H. destruct (all_in ix mi && (negb fx_cs || disjointb ix (fidx a))) eqn:AI; [|inversion Hfin; reflexivity].
     destruct OK as [IND OKC].
     rewrite (IH _ _ _ FP0 FP1 Hfin OKC).
     destruct (C05_indexed_ct_partial A env D DX ki a mi ix (m0 :: mi') IND) as [_ V]. apply V.
